@@ -815,3 +815,11 @@ CHECKS['C01']['level_text'] = CHECKS['C01']['level_text'] + (" VOTE DURABILITY (
 CHECKS['C20']['level_text'] = CHECKS['C20']['level_text'] + (" UNBOUNDED CURSOR (Engine/IterFallback, C20_iter_spec_unbounded_engine): the wrapper as repaired by 855ff6c "
     "(start fallback SeekToFirst + Valid checking Max in reverse) over a cursor that ignores the bounds hands out exactly the specified keys for every sorted store and option record; "
     "tie: the real wrapper runs over the harness's bounded AND unbounded reference cursor on every iter line and must agree (class wrapper-unbounded-cursor).")
+
+# C11: every PLSET request is answered, one reply per pair (Gen/Plset.lean, Props/C11Plset.lean; srvmerge op `plcount`)
+CHECKS['C11']['props'] = CHECKS['C11']['props'] + ['ZanVerif.Props.C11Plset']
+CHECKS['C11']['gens'] = CHECKS['C11']['gens'] + ['Plset']
+CHECKS['C11']['level_text'] = CHECKS['C11']['level_text'] + (" PLSET (Props/C11Plset over the regenerated guards and pinned pairing / reply loops of server/merge.go): "
+    "C11_plset_always_answered — every PLSET request gets at least one reply whatever its arguments, their number, the partition function and the outcome of the dispatch; "
+    "C11_plset_one_reply_per_pair — an accepted one gets exactly one reply per key/value pair and every argument is in a pair; tie: srvmerge op `plcount` compares the number of replies "
+    "of the real server (in-process, mem and tcp connections, 1-8 partitions, 0-9 arguments) with the executable model.")
